@@ -122,6 +122,19 @@ def doc(rng):
             lines += nested_inline(rng); continue
         if r0 < 0.20:
             lines += bracket_items(rng); continue
+        if r0 < 0.25:
+            # a list item with a wide marker (content column 3..7) followed, without a blank line, by lines led by blanks and tabs in every
+            # mixture (continuation / lazy continuation / code, decided after tab expansion) and then by plain lines: the offsets of the item
+            # loop are computed on expanded text but applied to the source
+            w = lambda: " ".join(rng.choice(gen.WORDS) for _ in range(rng.randint(1, 3)))
+            lines.append(rng.choice(["100. ", "1.   ", "-    ", "-   ", "12)  ", "* ", "- ", "7.  ", "+     ", "1234567. "]) + w())
+            for _ in range(rng.randint(1, 3)):
+                lines.append(rng.choice(["\t", " \t", "  \t", "   \t", "   ", "    ", "     ", "\t\t", "  ", " ", "\t ", "      "]) + w())
+            for _ in range(rng.randint(0, 2)):
+                lines.append(w())
+            if rng.random() < 0.5:
+                lines.append("")
+            continue
         if rng.random() < 0.15:
             lines.append(""); continue
         parts = [rng.choice(STARTS)]
